@@ -71,6 +71,19 @@ class _StringModule:
         raise NotConstant("string.%s" % attr)
 
 
+class _CodecTables:
+    """stand-in for a standard-library charmap codec module (``encodings.cp1252`` ...): its decoding table, which is data"""
+
+    def __init__(self, name):
+        import importlib
+        self._m = importlib.import_module("encodings." + name)
+
+    def get(self, attr):
+        if attr in ("decoding_table",) and isinstance(getattr(self._m, attr, None), str):
+            return getattr(self._m, attr)
+        raise NotConstant("encodings.%s" % attr)
+
+
 class ConstEval:
     def __init__(self, repo: Repo):
         self.repo = repo
@@ -209,6 +222,11 @@ class ConstEval:
                 return _StringModule()
             if m == "string" and attr in _StringModule.ALLOWED:
                 return getattr(_string, attr)
+            if m == "encodings" and attr in ("cp1252", "latin_1", "cp1250", "cp1251", "iso8859_15"):
+                try:
+                    return _CodecTables(attr)
+                except Exception:       # noqa: BLE001
+                    raise NotConstant(name)
             if m == "six" and attr in ("text_type",):
                 return str
             if m == "six" and attr == "unichr":
@@ -328,7 +346,7 @@ class ConstEval:
                 raise NotConstant("subscript: %r" % (e,))
         if isinstance(node, ast.Attribute):
             v = ev(node.value)
-            if isinstance(v, _StringModule):
+            if isinstance(v, (_StringModule, _CodecTables)):
                 return v.get(node.attr)
             if isinstance(v, _ModRef):
                 env = self.module_env(v.mod)
